@@ -69,6 +69,7 @@ def directed_families():
     F.append(("pow:raw-base", ["bin", "**", ["raw", 2.0, "float"], ab]))
     F.append(("par", ["bin", "+", ["bin", "*", ["par", "p"], _a], ["fn", "sin", ["bin", "*", ["par", "p"], _b]]]))
     F.append(("pel", ["bin", "+", ["bin", "*", ["pel", "r", 1], _a], ["pel", "r", 2]]))
+    F.append(("par:quadratic-coefficient", ["bin", "+", ["bin", "*", ["par", "p"], ["bin", "**", _a, ["raw", 2, "int"]]], ["bin", "*", ["bin", "*", ["pel", "r", 0], _a], _b]]))
     F.append(("par:exponent", ["bin", "+", ["bin", "**", _pos(_a), ["par", "p"]], ["bin", "*", _b, _x2]]))
     F.append(("par:weight-times-nonlinear", ["bin", "+", ["bin", "*", ["par", "p"], ["fn", "sin", ["bin", "*", _a, _b]]], ["bin", "**", _b, ["raw", 2, "int"]]]))
     F.append(("par:in-denominator", ["bin", "/", _a, ["bin", "+", ["bin", "**", ["par", "p"], ["raw", 2, "int"]], ["raw", 1.0, "float"]]]))
